@@ -736,67 +736,101 @@ class Ite:
 
 
 def ite_value(stmts, var, init=("undef",), stop=None):
-    """Value of the local `var` after the statement list as a tree
-         ("leaf", expr) | ("ite", test, a, b) | ("undef",) | ("exit",)
-    Only assignments `var = e` (also with a conditional expression), `if`s and statements that do not bind `var`
-    are interpreted; a path that leaves the block (return / raise / continue / break) yields ("exit",).
-    `stop`: statement at which to stop (exclusive)."""
-    def binds(st):
-        for n in ast.walk(st):
-            if isinstance(n, ast.Name) and n.id == var and isinstance(n.ctx, (ast.Store, ast.Del)):
-                return True
-        return False
-
-    def of_expr(e):
+    """Value of the local `var` where the statement `stop` begins (or after the statement list) as a tree
+         ("leaf", expr) | ("ite", test, a, b) | ("undef",) | ("opaque", why)
+    A small symbolic execution of straight-line code with `if`s: every plainly assigned local has a tree; a
+    conditional expression is a branch; a name used as a whole value or as a whole test stands for its tree (so
+    flags computed into helper locals, or by a substituted helper with a guard clause, are looked through);
+    branches that leave the block (return / raise / continue / break) do not contribute.  Anything else that binds
+    a name makes it opaque."""
+    def of_expr(e, st):
         if isinstance(e, ast.IfExp):
-            return ("ite", e.test, of_expr(e.body), of_expr(e.orelse))
+            return cond(of_expr(e.test, st), of_expr(e.body, st), of_expr(e.orelse, st))
+        if isinstance(e, ast.Name) and e.id in st:
+            return st[e.id]
         return ("leaf", e)
 
-    def subst_leaf(tree, cur):
-        """`var = f(var)`: not interpreted except the identity"""
-        return tree
+    def cond(test_tree, a, b):
+        """ite with a tree-valued test"""
+        if dump_tree(a) == dump_tree(b):
+            return a
+        if test_tree[0] == "leaf":
+            t = test_tree[1]
+            if isinstance(t, ast.Constant):
+                return a if t.value else b
+            return ("ite", t, a, b)
+        if test_tree[0] == "ite":
+            return ("ite", test_tree[1], cond(test_tree[2], a, b), cond(test_tree[3], a, b))
+        return ("opaque", "test has no interpretable value")
 
-    def go(stmts, cur):
-        for i, st in enumerate(stmts):
-            if stop is not None and st is stop:
-                return cur, True
-            if cur == ("exit",):
-                return cur, False
-            if isinstance(st, (ast.Return, ast.Raise, ast.Continue, ast.Break)):
-                return ("exit",), False
-            if isinstance(st, ast.If):
-                a, sa = go(st.body, cur)
-                if sa:
-                    return a, True
-                b, sb = go(st.orelse, cur)
-                if sb:
-                    return b, True
-                if stop is not None and any(n is stop for n in ast.walk(st)):
-                    raise TranslateError("ite_value: stop statement inside a branch")
-                if a is cur and b is cur:
-                    continue
-                rest = stmts[i + 1:]
-                # continue separately in both worlds (an exit in one branch must not lose the other)
-                ra, s1 = go(rest, a)
-                rb, s2 = go(rest, b)
-                if dump_tree(ra) == dump_tree(rb):
-                    return ra, s1 or s2
-                return ("ite", st.test, ra, rb), s1 or s2
-            if isinstance(st, (ast.Assign, ast.AnnAssign)) and binds(st):
-                tg = st.targets if isinstance(st, ast.Assign) else [st.target]
-                if len(tg) != 1 or not isinstance(tg[0], ast.Name) or st.value is None:
-                    raise TranslateError("ite_value: `%s` is bound by a statement that is not interpreted (line %s)"
-                                         % (var, st.lineno))
-                if any(isinstance(n, ast.Name) and n.id == var for n in ast.walk(st.value)):
-                    raise TranslateError("ite_value: `%s` is updated from itself (line %s)" % (var, st.lineno))
-                cur = of_expr(st.value)
+    def stores(st):
+        out = set()
+        for n in ast.walk(st):
+            if isinstance(n, ast.Name) and isinstance(n.ctx, (ast.Store, ast.Del)):
+                out.add(n.id)
+        return out
+
+    class Stop(Exception):
+        def __init__(self, state):
+            self.state = state
+
+    def merge(test_tree, a, b):
+        if a is None:
+            return b
+        if b is None:
+            return a
+        out = {}
+        for k in set(a) | set(b):
+            out[k] = cond(test_tree, a.get(k, ("undef",)), b.get(k, ("undef",)))
+        return out
+
+    def go(stmts, st):
+        """state after the statements, None if every path left the block"""
+        for s_ in stmts:
+            if stop is not None and s_ is stop:
+                raise Stop(st)
+            if isinstance(s_, (ast.Return, ast.Raise, ast.Continue, ast.Break)):
+                return None
+            if isinstance(s_, ast.If):
+                tt = of_expr(s_.test, st)
+                try:
+                    a = go(s_.body, dict(st))
+                except Stop as e:
+                    raise Stop(e.state)
+                b = go(s_.orelse, dict(st))
+                st = merge(tt, a, b)
+                if st is None:
+                    return None
                 continue
-            if binds(st):
-                raise TranslateError("ite_value: `%s` is bound by a %s, which is not interpreted (line %s)"
-                                     % (var, type(st).__name__, st.lineno))
-        return cur, False
+            if isinstance(s_, ast.Assign) and len(s_.targets) == 1 and isinstance(s_.targets[0], ast.Name):
+                st[s_.targets[0].id] = of_expr(s_.value, st)
+                continue
+            if isinstance(s_, ast.AnnAssign) and isinstance(s_.target, ast.Name) and s_.value is not None:
+                st[s_.target.id] = of_expr(s_.value, st)
+                continue
+            if isinstance(s_, ast.Assign) and len(s_.targets) == 1 and isinstance(s_.targets[0], ast.Tuple) \
+                    and isinstance(s_.value, ast.Tuple) and len(s_.value.elts) == len(s_.targets[0].elts) \
+                    and all(isinstance(t, ast.Name) for t in s_.targets[0].elts):
+                vals = [of_expr(v, st) for v in s_.value.elts]
+                for t, v in zip(s_.targets[0].elts, vals):
+                    st[t.id] = v
+                continue
+            if stop is not None and any(n is stop for n in ast.walk(s_)):
+                # the stop statement lies inside a compound statement that is not an `if`: names bound there are opaque
+                for n in stores(s_):
+                    st[n] = ("opaque", "bound inside a %s" % type(s_).__name__)
+                raise Stop(st)
+            for n in stores(s_):
+                st[n] = ("opaque", "bound by a %s (line %s)" % (type(s_).__name__, getattr(s_, "lineno", "?")))
+        return st
 
-    return go(list(stmts), init)[0]
+    try:
+        final = go(list(stmts), {var: init})
+    except Stop as e:
+        final = e.state
+    if final is None:
+        return ("undef",)
+    return final.get(var, ("undef",))
 
 
 def dump_tree(t):
